@@ -27,7 +27,7 @@ const (
 type Atom struct {
 	Kind AtomKind
 	S    string
-	I    int64     // AInt; AFloat: value*128
+	I    int64     // AInt; AFloat: FloatKey(value)
 	F    float64   // AFloat
 	B    bool      // ABool
 	T    time.Time // ATime, ADate
@@ -51,13 +51,13 @@ type XNode struct {
 	Leaf bool
 }
 
-func S(s string) Atom     { return Atom{Kind: AStr, S: s} }
-func I(i int64) Atom      { return Atom{Kind: AInt, I: i} }
-func B(b bool) Atom       { return Atom{Kind: ABool, B: b} }
-func T(t time.Time) Atom  { return Atom{Kind: ATime, T: t} }
-func D(t time.Time) Atom  { return Atom{Kind: ADate, T: t} }
+func S(s string) Atom    { return Atom{Kind: AStr, S: s} }
+func I(i int64) Atom     { return Atom{Kind: AInt, I: i} }
+func B(b bool) Atom      { return Atom{Kind: ABool, B: b} }
+func T(t time.Time) Atom { return Atom{Kind: ATime, T: t} }
+func D(t time.Time) Atom { return Atom{Kind: ADate, T: t} }
 func F(f float64) Atom {
-	k, ok := Scaled(f)
+	k, ok := FloatKey(f)
 	if !ok {
 		panic("xcodec: float not representable")
 	}
